@@ -6,6 +6,7 @@ import (
 	"fmt"
 	"os"
 	"path/filepath"
+	"runtime/pprof"
 	"sort"
 	"strconv"
 	"strings"
@@ -64,6 +65,11 @@ func main() {
 	fs.Var(params, "D", "harness parameter name=value")
 	fs.Parse(os.Args[2:])
 
+	if pf := os.Getenv("GOSMT_PROF"); pf != "" {
+		f, _ := os.Create(pf)
+		pprof.StartCPUProfile(f)
+		defer pprof.StopCPUProfile()
+	}
 	seed := 0
 	if s := os.Getenv("VERIF_SEED"); s != "" {
 		seed, _ = strconv.Atoi(s)
@@ -109,7 +115,9 @@ func main() {
 		if id == "" {
 			id = "DEV"
 		}
-		os.Exit(runCheck(eng, id, "quick", ps, *verif, seed, t0, id == "DEV"))
+		rc := runCheck(eng, id, "quick", ps, *verif, seed, t0, id == "DEV")
+		pprof.StopCPUProfile()
+		os.Exit(rc)
 	case "check":
 		b, err := os.ReadFile(filepath.Join(*verif, "checks.json"))
 		if err != nil {
